@@ -402,7 +402,7 @@ pub fn run(eng: &Engine) {
     eng.set_rule("histories of 1..6 frames on one decoder (valid, dictionary, truncated, corrupted; run to completion, abandoned after k blocks with or without draining, or into their error) followed by a probe decoded on the reused decoder and on a fresh decoder with the same dictionaries; probes: valid frames, frames whose first sequences use repeat offsets, frames that are invalid on a fresh decoder (first block treeless, LL/OF/ML Repeat mode without a table, a match before the frame start), dictionary frames; the full outcome tuple is compared; non-trivial = the history contains an abandoned or failed frame and the probe is leak-sensitive; distinct by hash of all frames");
     eng.assume("accessor values after a reset() that failed in the frame header are not compared");
     let tier = eng.tier;
-    let n = eng.tier.pick(4_000, 120_000);
+    let n = eng.tier.pick(15_000, 300_000);
     eng.run_stage("reuse_histories", n, || case_strategy(tier), check);
 }
 
